@@ -49,13 +49,14 @@ func isStoreCall(in ssa.Instruction, method string) bool {
 }
 
 func checkC14(w *World, r *Report) {
-	r.Decides = "C14 is decided in its structural part only: (a) create answers ErrTableExists on the exists edge, writes the record with version 0 (compare-and-set create), maps a version mismatch to ErrTableExists and takes the shard id from the id sequence; (b) the id sequence writes current+1 with the version it read and returns that value together with the write's error, and every other assignment of a table's ClusterID/RecoverID derives from it; (c) the state-machine directory name is built from both the table name and the shard id; (d) delete maps 'not stored' to ErrTableNotFound and deletes with the version it read; (e) reconciliation starts exactly catalogued-not-running ids above the reserved range and stops exactly running-not-catalogued ids above it; (f) every read and proposal of an ActiveTable targets its own shard id and session; (g) a record for an externally supplied name is written only after the name passed a path-separator test (names with '/' leave the catalogue's key space)."
+	r.Decides = "C14 is decided in its structural part only: (a) create answers ErrTableExists on the exists edge, writes the record with version 0 (compare-and-set create), maps a version mismatch to ErrTableExists and takes the shard id from the id sequence; (b) the id sequence writes current+1 with the version it read and returns that value together with the write's error, and every other assignment of a table's ClusterID/RecoverID derives from it; (c) the state-machine directory name is built from both the table name and the shard id; (d) delete maps 'not stored' to ErrTableNotFound and deletes with the version it read; (e) reconciliation starts exactly catalogued-not-running ids above the reserved range and stops exactly running-not-catalogued ids above it; (f) every read and proposal of an ActiveTable targets its own shard id and session; (g) a record for an externally supplied name is written only after the name passed a path-separator test (names with '/' leave the catalogue's key space). (k) the listing hands out every stored record; (l) after the load Restore goes on only with the record it re-read; delete reports success only on the nil edge of the versioned delete."
 	r.NotDecided = []string{"races between nodes beyond the compare-and-set (reduced to C13.a)", "emptiness of a recreated table beyond the fresh directory"}
 	r.Assume = []string{"C13: the metadata store is a compare-and-set map whose versions are never 0"}
 	c14Create(w, r)
 	c14Listing(w, r)
+	c14RestoreRecord(w, r)
 	c14Seq(w, r)
-	c14Dir(w, r)
+	c14Dir(w, r, "C14.c", "c-fresh-directory")
 	c14Delete(w, r)
 	c14Diff(w, r)
 	c14Isolation(w, r)
@@ -63,6 +64,7 @@ func checkC14(w *World, r *Report) {
 	if mt := metaType(w); mt != nil {
 		c13Snapshot(w, r, mt, "C14.h", "h-catalogue-snapshot-replaces")
 		c13StoreOps(w, r, "C14.j", "j-store-operations-unconditional")
+		c13UpdateScope(w, r, "C14.m", "m-catalogue-update-own-key")
 	}
 	c05Reconcile(w, r, "C14.i", "i-follower-catalogue-follows")
 }
@@ -257,8 +259,8 @@ func c14Seq(w *World, r *Report) {
 	ob.NeedFloor(4)
 }
 
-func c14Dir(w *World, r *Report) {
-	ob := r.Ob("C14.c", "c-fresh-directory", "the state machine's data directory name is built from the table name and the shard id (both parameters occur in the expression stored into the state machine's directory field)", "a directory keyed by the name alone hands the old content to a recreated table")
+func c14Dir(w *World, r *Report, id, slug string) {
+	ob := r.Ob(id, slug, "the state machine's data directory name is built from the table name and the shard id (both parameters occur in the expression stored into the state machine's directory field)", "a directory keyed by the name alone hands the old content to a recreated table")
 	a := w.FsmAnchors()
 	if a.FSM == nil {
 		ob.Undecided("anchor", "state machine type not found")
@@ -1327,4 +1329,61 @@ func c14KeySpace(w *World, r *Report) {
 		ob.Undecided("shape", "no record write for a name parameter found")
 	}
 	ob.NeedFloor(4)
+}
+
+// c14RestoreRecord: after the load, Restore finishes on the catalogue record it re-read.
+func c14RestoreRecord(w *World, r *Report) {
+	ob := r.Ob("C14.l", "l-restore-rereads-record", "Manager.Restore: from the error edge of every catalogue read that follows the load (readIntoTable) only error returns are reachable", "a table deleted while its restore was loading must make the restore fail: going on writes a record built from the zero value - a catalogued table with the empty name that nobody created, whose recovery shard is never stopped")
+	fn := w.Func("storage/table", "Manager.Restore")
+	if fn == nil {
+		ob.Undecided("anchor", "Manager.Restore not found")
+		return
+	}
+	var load ssa.Instruction
+	eachInstr(fn, func(in ssa.Instruction) {
+		if c := plainCall(in); c != nil && StaticCallee(c) != nil && StaticCallee(c).Name() == "readIntoTable" {
+			load = in
+		}
+	})
+	if load == nil {
+		ob.Undecided("shape", "Restore does not call the loader")
+		return
+	}
+	n := 0
+	for _, in := range (&Walk{}).ReachableInstrs(after(load)) {
+		c := plainCall(in)
+		if c == nil {
+			continue
+		}
+		isRead := isStoreCall(in, "Get") || (StaticCallee(c) != nil && (StaticCallee(c).Name() == "getTableVersion" || StaticCallee(c).Name() == "getTable"))
+		if !isRead {
+			continue
+		}
+		n++
+		ob.Site(in.Pos(), "catalogue read after the load")
+		rv := in.(ssa.Value)
+		ei := 1
+		if tup, ok := rv.Type().(*types.Tuple); ok {
+			ei = tup.Len() - 1
+		}
+		rctx := &ExprCtx{Alias: map[ssa.Value]string{rv: "read"}}
+		wk := &Walk{Target: func(x ssa.Instruction) bool {
+			ret, ok := x.(*ssa.Return)
+			return ok && !isErrorReturn(ret)
+		}, EdgeOK: func(b *ssa.BasicBlock, k int) bool {
+			for _, l := range rctx.EdgeLits(b, k) {
+				if l.Kind == "eq" && !l.Neg && l.B == "nil" && l.A == "read#"+itoa(ei) {
+					return false
+				}
+			}
+			return true
+		}}
+		if p := wk.Find(after(in)); p != nil {
+			ob.Violate("restore-continues-without-record", instrPos(p.Hit), "Restore can finish successfully although re-reading the table's record after the load failed (the table was deleted meanwhile): it writes a record with the empty name", w.PathString(p)...)
+		}
+	}
+	if n == 0 {
+		ob.Violate("restore-does-not-reread", load.Pos(), "Restore no longer re-reads the table's record after the load")
+	}
+	ob.NeedFloor(1)
 }
